@@ -15,7 +15,7 @@ The transformations (each preserves evaluation order, values and side effects):
   T3  += expansion         `n += <int literal>`  ->  `n = n + <int literal>`   (Name targets only)
   T4  conjunction nesting  `if a and b: S` (no else)  ->  `if a: if b: S`
   T5  unused index         `for x in xs:`  ->  `for _mm_i, x in enumerate(xs):`
-  T7  local rename         one local variable of a function renamed
+  T7  local rename         one local variable of a function renamed (to a neutral name: rules must not lean on what a local is called)
   T8  while lowering       `while c: B` (no else)  ->  `while True: if not (c): break; B`
   T9  comparison flip      `a < b` -> `b > a` when both operands are names / attributes / literals (no calls)
   T10 early continue       `for ...: if c: B` (if is the whole body, no else)  ->  `if not (c): continue; B`
@@ -242,7 +242,7 @@ def find_sites(path: Path):
             for nm in sorted(stores):
                 if nm in params or nm in nested_names or nm in comp_targets or nm.startswith("_"):
                     continue
-                def mk(fn=fn, nm=nm, new=fresh(nm + "_v")):
+                def mk(fn=fn, nm=nm, new=fresh("mmv")):
                     f2 = copy.deepcopy(fn)
                     for x in ast.walk(f2):
                         if isinstance(x, ast.Name) and x.id == nm:
